@@ -512,7 +512,7 @@ def model_check(ctx, items, pid, what):
             probs = check_oracle(pattern, frame, [p], method, tuple(o[i:i + 1] for o in outs))
             if probs:
                 ctx.violation('input', '%s: %s' % (what, probs[0]),
-                              case_replay(it['desc'], ints, one, [p], method, probs, {'note': it.get('note')}))
+                              case_replay(it['desc'], ints, one, [p], method, probs, {'note': it.get('note'), 'all_peaks': [list(map(int, q)) for q in peaks]}))
             else:
                 ctx.obligation('K:%s/%s peak %s' % (pid, method, (p,)), False,
                                'model and implementation differ (%s) but the float oracle accepts; note=%s' % (detail, it.get('note')))
@@ -532,11 +532,23 @@ def replay_case(body, pid):
     pattern = pattern_from_desc(a['pattern'])
     frame = (np.array(a['frame_ints'], dtype=np.float64) / a['one']).astype(np.float32)
     run = run_fast if a['method'] == 'fast' else run_full
-    try:
-        outs = run(pattern, frame, a['peaks'])
-        probs = check_oracle(pattern, frame, a['peaks'], a['method'], outs)
-    except Exception as e:  # noqa
-        probs = ['raised %s: %s' % (type(e).__name__, e)]
+    probs = []
+    # the peak alone, then the whole peak list of the recorded call with every buffer count (the failure may need the block structure)
+    lists = [a['peaks']] + ([a['all_peaks']] if a.get('all_peaks') and a['all_peaks'] != a['peaks'] else [])
+    for pk in lists:
+        for bc in [None] + sorted(set([1, 2, max(1, len(pk) - 1), len(pk) + 1])):
+            if bc is not None and len(pk) == 1 and bc > 2:
+                continue
+            try:
+                outs = run(pattern, frame, pk, bc=bc)
+                probs = check_oracle(pattern, frame, pk, a['method'], outs)
+            except Exception as e:  # noqa
+                probs = ['raised %s: %s' % (type(e).__name__, e)]
+            if probs:
+                probs = ['peak list %s, buffer count %s: %s' % (pk, bc, probs[0])]
+                break
+        if probs:
+            break
     print(json.dumps({'replayed': {k: a[k] for k in ('pattern', 'peaks', 'method')}, 'failure_now': probs}, indent=1, default=str))
     if probs:
         print('VIOLATION property=%s replay=(given)' % pid)
